@@ -155,7 +155,7 @@ def make_leaf(b: CaseBuilder, kind, w, placement="top", enum_order="zero_first")
 
 
 WRAPPERS = ("scalar", "alias", "arr", "arr_ext", "alias_arr", "alias_arr_ext", "arr_of_alias",
-            "arr2d", "msg", "msg_ext", "arr_msg", "arr_ext_msg_ext")
+            "arr2d", "arr2d_ext", "msg", "msg_ext", "arr_msg", "arr_ext_msg_ext")
 
 
 def wrap(b: CaseBuilder, wrapper: str, kind, w, cap, placement="top", enum_order="zero_first"):
@@ -186,12 +186,12 @@ def wrap(b: CaseBuilder, wrapper: str, kind, w, cap, placement="top", enum_order
             return None
         a = AliasDef(b.fresh("A"), make_leaf(b, kind, w))
         return Array(b.place(a, pl_alias), cap, False)
-    if wrapper == "arr2d":
+    if wrapper in ("arr2d", "arr2d_ext"):
         leaf = make_leaf(b, kind, w, pl_alias if is_enum else "top", enum_order)
         if is_enum and pl_alias in ("libp", "liba"):
             leaf = Named(leaf.target, leaf.target.name)
-        a = AliasDef(b.fresh("A"), Array(leaf, cap, False))
-        return Array(b.place(a, pl_alias), 2, False)
+        a = AliasDef(b.fresh("A"), Array(leaf, cap, wrapper == "arr2d_ext"))
+        return Array(b.place(a, pl_alias), 2, wrapper == "arr2d_ext")
     if wrapper in ("msg", "msg_ext", "arr_msg", "arr_ext_msg_ext"):
         inner_ext = wrapper in ("msg_ext", "arr_ext_msg_ext")
         # the leaf's enum is nested in the inner message itself (closest legal scope)
@@ -208,7 +208,7 @@ def wrap(b: CaseBuilder, wrapper: str, kind, w, cap, placement="top", enum_order
     raise ValueError(wrapper)
 
 
-def sing_case(cid, kind, w, wrapper, cap, pad, ext, placement="top", enum_order="zero_first", tail=True):
+def sing_case(cid, kind, w, wrapper, cap, pad, ext, placement="top", enum_order="zero_first", tail=True, fnum=2):
     b = CaseBuilder(cid)
     t = wrap(b, wrapper, kind, w, cap, placement, enum_order)
     if t is None:
@@ -216,15 +216,17 @@ def sing_case(cid, kind, w, wrapper, cap, pad, ext, placement="top", enum_order=
     fields = []
     if pad:
         fields.append(Field(Uint(pad), "pad", 1))
-    fields.append(Field(t, "f", 2))
+    fields.append(Field(t, "f", fnum))
     if tail:
-        fields.append(Field(Uint(5), "tail", 3))
+        fields.append(Field(Uint(5), "tail", 3 if fnum < 3 else (255 if fnum == 254 else 2)))
+    if fnum != 2:
+        b.feats.add("fnum:%d" % fnum)
     b.feats.add("pad:%d" % pad)
     b.feats.add("kind:%s" % kind)
     if ext:
         b.feats.add("msg_ext")
-    desc = "SING kind=%s%s wrapper=%s cap=%s pad=%d ext=%s place=%s order=%s" % (
-        kind, w or "", wrapper, cap, pad, ext, placement, enum_order)
+    desc = "SING kind=%s%s wrapper=%s cap=%s pad=%d ext=%s place=%s order=%s%s" % (
+        kind, w or "", wrapper, cap, pad, ext, placement, enum_order, "" if fnum == 2 else " fnum=%d" % fnum)
     return b.finish("M" + cid, ext, fields, desc)
 
 
@@ -258,6 +260,11 @@ def sing_space(tier: str) -> List[Case]:
                 if placement in ("nested", "libp_nested") and kind != "enum" and not ("msg" in wrapper):
                     continue  # nothing nameable to place
                 add(sing_case("s%d" % n, kind, w, wrapper, 3, 3, False, placement))
+    # field-number boundaries: the field under test at number 255 (last) and 254 (followed by 255)
+    for kind, w in [("uint", 3), ("int", 13), ("enum", 3), ("bool", None)]:
+        for wrapper in WRAPPERS:
+            for fnum in (254, 255):
+                add(sing_case("s%d" % n, kind, w, wrapper, 3, 3, False, "top", "zero_first", True, fnum))
     # enum declaration order deviation: first declared member non-zero
     for w in ew:
         for wrapper in ("scalar", "arr", "arr_ext", "alias_arr", "msg", "arr_msg"):
@@ -292,6 +299,8 @@ def comb_alphabet(b: CaseBuilder):
         ("uint9[2]'", lambda: Array(Uint(9), 2, True)),
         ("Inner", inner(False)),
         ("Inner'[2]", lambda: Array(inner(True)(), 2)),
+        ("alias int13", lambda: b.place(AliasDef(b.fresh("A"), Int(13)), "top")),
+        ("Row[2] Row=uint4[2]", lambda: Array(b.place(AliasDef(b.fresh("A"), Array(Uint(4), 2)), "top"), 2)),
     ]
 
 
@@ -299,11 +308,11 @@ def comb_space(kmax: int) -> List[Case]:
     """All messages with k <= kmax fields over TR, all assignments of field numbers to
     declaration positions (k! permutations + one gapped numbering), both ext flags."""
     cases, n = [], 0
-    nshapes = 12
+    nshapes = 14
     for k in range(1, kmax + 1):
         for combo in itertools.product(range(nshapes), repeat=k):
             numberings = [list(p) for p in itertools.permutations(range(1, k + 1))]
-            numberings.append([3 + 7 * i for i in range(k)][::-1] if k > 1 else [200])
+            numberings.append([255 - 127 * i for i in range(k)] if k > 1 else [255])
             for nums in numberings:
                 for ext in (False, True):
                     b = CaseBuilder("c%d" % n)
